@@ -2,7 +2,7 @@
 from __future__ import annotations
 
 import ast
-from typing import List
+from typing import Dict, List, Set
 
 from .. import sym
 from ..model import AnalysisError, Func, Repo, short, walk_no_nested
@@ -197,11 +197,168 @@ def r9_5(repo: Repo) -> RuleResult:
     return rr
 
 
-RULES = [r9_1, r9_2, r9_3, r9_4, r9_5]
+# --------------------------------------------------------------------------- R9.6
+import copy as _copy
+
+
+def _slice_names(fn: ast.FunctionDef, seeds: Set[str]) -> Set[str]:
+    """Names that can influence the seed names (data and control), flow-insensitively."""
+    sl = set(seeds)
+    changed = True
+    while changed:
+        changed = False
+        for n in ast.walk(fn):
+            tg: Set[str] = set()
+            src: Set[str] = set()
+            if isinstance(n, ast.Assign):
+                for t in n.targets:
+                    base = t
+                    while isinstance(base, ast.Subscript):
+                        src |= {x.id for x in ast.walk(base.slice) if isinstance(x, ast.Name)}
+                        base = base.value
+                    if isinstance(base, ast.Name):
+                        tg.add(base.id)
+                    elif isinstance(base, ast.Tuple):
+                        tg |= {x.id for x in ast.walk(base) if isinstance(x, ast.Name)}
+                src |= {x.id for x in ast.walk(n.value) if isinstance(x, ast.Name)}
+            elif isinstance(n, ast.AugAssign):
+                base = n.target
+                while isinstance(base, ast.Subscript):
+                    base = base.value
+                if isinstance(base, ast.Name):
+                    tg.add(base.id)
+                src |= {x.id for x in ast.walk(n.value) if isinstance(x, ast.Name)}
+            elif isinstance(n, (ast.If, ast.While)):
+                # control dependence: the test matters if the body writes a slice name
+                body_t: Set[str] = set()
+                for s_ in n.body + n.orelse:
+                    for m in ast.walk(s_):
+                        if isinstance(m, ast.Assign):
+                            for t in m.targets:
+                                b = t
+                                while isinstance(b, ast.Subscript):
+                                    b = b.value
+                                if isinstance(b, ast.Name):
+                                    body_t.add(b.id)
+                        elif isinstance(m, ast.AugAssign):
+                            b = m.target
+                            while isinstance(b, ast.Subscript):
+                                b = b.value
+                            if isinstance(b, ast.Name):
+                                body_t.add(b.id)
+                        elif isinstance(m, (ast.Continue, ast.Break)):
+                            body_t.add("<flow>")
+                if body_t & (sl | {"<flow>"}):
+                    tg = set(sl) & body_t or {"<flow>"}
+                    src = {x.id for x in ast.walk(n.test) if isinstance(x, ast.Name)}
+            elif isinstance(n, ast.For):
+                tg = {x.id for x in ast.walk(n.target) if isinstance(x, ast.Name)}
+                src = {x.id for x in ast.walk(n.iter) if isinstance(x, ast.Name)}
+            if (tg & sl or "<flow>" in tg) and not src <= sl:
+                sl |= src
+                changed = True
+    return sl
+
+
+class _Prune(ast.NodeTransformer):
+    def __init__(self, keep: Set[str]):
+        self.keep = keep
+
+    def _targets(self, node):
+        out = set()
+        tl = node.targets if isinstance(node, ast.Assign) else [node.target]
+        for t in tl:
+            b = t
+            while isinstance(b, ast.Subscript):
+                b = b.value
+            if isinstance(b, ast.Name):
+                out.add(b.id)
+            else:
+                out |= {x.id for x in ast.walk(b) if isinstance(x, ast.Name)}
+        return out
+
+    def visit_Assign(self, node):
+        return node if self._targets(node) & self.keep else None
+
+    visit_AugAssign = visit_Assign
+
+    def visit_If(self, node):
+        self.generic_visit(node)
+        if not node.body and not node.orelse:
+            return None
+        if not node.body:
+            node.body = [ast.Pass()]
+        return node
+
+    def visit_Expr(self, node):
+        return None if isinstance(node.value, ast.Constant) else node
+
+
+def _skeleton(f: Func) -> str:
+    fn = _copy.deepcopy(f.node)
+    rets = [n for n in ast.walk(fn) if isinstance(n, ast.Return) and n.value is not None]
+    out_expr = rets[-1].value
+    if isinstance(out_expr, ast.Tuple):
+        out_expr = out_expr.elts[0]
+        for r in rets:
+            if isinstance(r.value, ast.Tuple):
+                r.value = r.value.elts[0]
+    seeds = {x.id for x in ast.walk(out_expr) if isinstance(x, ast.Name)}
+    keep = _slice_names(fn, seeds)
+    fn = _Prune(keep).visit(fn)
+    ast.fix_missing_locations(fn)
+    # alpha-rename locals in order of first binding
+    order: List[str] = []
+    for n in ast.walk(fn):
+        if isinstance(n, ast.Name) and isinstance(n.ctx, ast.Store) and n.id not in order:
+            order.append(n.id)
+    params = [a.arg for a in fn.args.args]
+    mapping = {nm: "v%d" % i for i, nm in enumerate(sorted(order, key=lambda z: order.index(z))) if nm not in params}
+    for i, p_ in enumerate(params):
+        mapping[p_] = "p%d" % i
+    for n in ast.walk(fn):
+        if isinstance(n, ast.Name) and n.id in mapping:
+            n.id = mapping[n.id]
+    return "\n".join(norm(s_) for s_ in fn.body if not (isinstance(s_, ast.Expr) and isinstance(s_.value, ast.Constant)))
+
+
+def r9_6(repo: Repo) -> RuleResult:
+    rr = RuleResult("R9.6", "the encoder's contraction kernel scans exactly like the trainer's (the merge list is replayed the way it was learned)", floor=1)
+    enc = repo.func(MG, "contract_pair")
+    trn = repo.func(MG, "contract_and_count_pairs")
+    a, b = _skeleton(enc), _skeleton(trn)
+    # the trainer takes the pair-count table as an extra parameter: align parameter numbering on names
+    pa = enc.params
+    pb = [p_ for p_ in trn.params if p_ in pa]
+    if pa != pb:
+        raise AnalysisError("R9.6: the two contraction kernels no longer share their leading parameters")
+    import re
+
+    def renumber(txt: str, f: Func) -> str:
+        # parameters not shared with the sibling are dropped from the numbering
+        shared = [p_ for p_ in f.params if p_ in pa]
+        for i, p_ in enumerate(f.params):
+            txt = re.sub(r"\bp%d\b" % i, "P_%s" % (p_ if p_ in shared else "extra"), txt)
+        return txt
+
+    a, b = renumber(a, enc), renumber(b, trn)
+    if a == b:
+        rr.ok(enc, "contract_pair vs contract_and_count_pairs", "same scan skeleton once the trainer's pair-count bookkeeping is sliced away (%d statements)" % len(a.splitlines()), enc.node.lineno)
+    else:
+        import difflib
+
+        d = [l for l in difflib.unified_diff(b.splitlines(), a.splitlines(), lineterm="", n=0) if l[:1] in "+-" and l[:3] not in ("+++", "---")]
+        rr.bad(enc, "contract_pair vs contract_and_count_pairs",
+               "the encoder no longer contracts a pair the way the trainer does (first differences: %s): strings are re-encoded differently from "
+               "the encodings fit_transform returned whenever the two scans disagree (e.g. on runs of a repeated code)" % d[:4], enc.node.lineno)
+    return rr
+
+
+RULES = [r9_1, r9_2, r9_3, r9_4, r9_5, r9_6]
 CLAIM = (
     "R9.1 definite assignment in every kernel of mixed_gram_vectorizer.py (the empty / one-character string clause); "
     "R9.2 all decode sites agree on `code <= mcc` and offset `code - mcc - 1`, both encoders start at mcc + 1 and advance "
-    "by one per merge (symbolic); R9.3 the vocabulary budget loop shape; R9.4 the out-of-range character mapping; R9.5 bookkeeping pairing: token and pair are appended together, the returned max_char_code is the running maximum, and transform replays exactly the stored merge list and limit."
+    "by one per merge (symbolic); R9.3 the vocabulary budget loop shape; R9.4 the out-of-range character mapping; R9.5 bookkeeping pairing: token and pair are appended together, the returned max_char_code is the running maximum, and transform replays exactly the stored merge list and limit; R9.6 sibling agreement: the encoder's contraction kernel equals the trainer's once the pair-count bookkeeping is sliced away (backward slice from the returned code array, alpha-renamed)."
 )
 NOT_DECIDED = (
     "losslessness for arbitrary strings, equality of transform and fit_transform encodings, and correctness of the "
